@@ -157,6 +157,7 @@ func genAdv(prop string) func(rt *rapid.T) interface{} {
 			kinds = append(kinds, advFuzz...)
 			kinds = append(kinds, advFuzz...)
 			kinds = append(kinds, advFuzz...)
+			kinds = append(kinds, "ps-m5-badltpk", "ps-m5-badltpk", "pairings-add-shortkey", "pairings-add-shortkey", "pv-m3-shortkey-name", "pv-m3-shortkey-name", "ps-m3-a0-pubproof", "ps-m3-longA", "ps-m3-badprooflen", "ps-m5-weak")
 			kinds = append(kinds, "ps-m1", "ps-m3-right", "ps-m3-wrong", "ps-m3-a0", "ps-m3-noA", "ps-m5-short", "ps-m5-random", "ps-m5-tampered", "ps-unknown-state", "ps-unknown-method",
 				"pv-m1", "pv-m1-short", "pv-m3-genuine", "pv-m3-short", "pv-m3-wrongseal", "pv-m3-badtlv", "pv-m3-unknown", "pv-m3-self", "pv-unknown-state", "get-acc", "put-val", "put-ev", "get-chars")
 		}
@@ -327,6 +328,40 @@ func tlvErr(t map[byte][]byte) int {
 	return 0
 }
 
+// reachAfterM3 brings the connection's pair-setup exchange to the state after a valid M3/M4
+// (C13: hostile input at every state reachable by a prefix of a correct exchange).
+func (aw *advWorld) reachAfterM3(p *peerConn) {
+	if p.m3rightOK || !aw.sc.KnowsCode {
+		return
+	}
+	aw.do(p, AdvOp{Conn: p.slot, Kind: "ps-m1"})
+	if p.setupClean {
+		aw.do(p, AdvOp{Conn: p.slot, Kind: "ps-m3-right"})
+	}
+	aw.w.Sim.Count("probe.reached_after_m3")
+}
+
+// reachVerifyStarted brings the connection's pair-verify exchange to the state after a valid start.
+func (aw *advWorld) reachVerifyStarted(p *peerConn) {
+	if p.pvStarted {
+		return
+	}
+	aw.do(p, AdvOp{Conn: p.slot, Kind: "pv-m1"})
+	aw.w.Sim.Count("probe.reached_verify_started")
+}
+
+// reachVerified runs an honest pair-verify on the connection.
+func (aw *advWorld) reachVerified(p *peerConn) {
+	if aw.verifiedConns[p.conn.ID] || !aw.sc.KnowsKey || aw.sc.Unpaired {
+		return
+	}
+	aw.allowedVerified[p.conn.ID] = true
+	if ok, err := aw.honestVerify(p.cl, 1); ok && err == nil {
+		aw.verifiedConns[p.conn.ID] = true
+		aw.w.Sim.Count("probe.reached_verified")
+	}
+}
+
 // do executes one op on the slot and returns what was observed.
 func (aw *advWorld) do(p *peerConn, op AdvOp) *advResult {
 	r := &advResult{Op: op}
@@ -346,6 +381,22 @@ func (aw *advWorld) do(p *peerConn, op AdvOp) *advResult {
 	sc := aw.sc
 	w := aw.w
 	firstChar := "1.2"
+	if aw.on("C13") && op.Arg%2 == 0 && !p.dead {
+		// half of the hostile messages are sent in the protocol state they aim at
+		switch {
+		case strings.HasPrefix(op.Kind, "ps-m5-"), op.Kind == "fuzz-pair-setup" && op.Arg%4 == 0:
+			aw.reachAfterM3(p)
+		case strings.HasPrefix(op.Kind, "pv-m3-"), op.Kind == "fuzz-pair-verify" && op.Arg%4 == 0:
+			aw.reachVerifyStarted(p)
+		case op.Kind == "pairings-add-shortkey", op.Kind == "fuzz-pairings", op.Kind == "fuzz-characteristics", op.Kind == "fuzz-resource":
+			if op.Arg%4 == 0 {
+				aw.reachVerified(p)
+			}
+		}
+		if p.dead || p.cl == nil {
+			aw.newSlotConn(p)
+		}
+	}
 	switch op.Kind {
 	case "get-acc":
 		p.request("GET", "/accessories", "", nil, r)
@@ -485,6 +536,39 @@ func (aw *advWorld) do(p *peerConn, op AdvOp) *advResult {
 		if aw.on("C02") && r.TLV != nil && (len(r.TLV[ref.TagProof]) > 0 || len(r.TLV[ref.TagEncrypted]) > 0) {
 			aw.violate("proof-for-wrong-m3", "the answer to a verify request built without the setup code (%s) carries a proof / encrypted data", op.Kind)
 		}
+	case "ps-m5-badltpk":
+		// a correctly sealed key exchange whose long-term public key has a wrong length
+		K := make([]byte, 64)
+		if p.srp != nil && p.m3rightOK {
+			K = p.srp.K
+		}
+		encKey := ref.HKDF(K, "Pair-Setup-Encrypt-Salt", "Pair-Setup-Encrypt-Info")
+		n := op.Arg % 70
+		if n == 32 {
+			n = 31
+		}
+		ltpk := bytes.Repeat([]byte{0x42}, n)
+		sig := make([]byte, 64)
+		w.Rand.Read(sig)
+		sub := ref.TLVEncode([]ref.TLV{{Tag: ref.TagIdentifier, Val: []byte("badkey-" + fmt.Sprint(op.Arg))}, {Tag: ref.TagPublicKey, Val: ltpk}, {Tag: ref.TagSignature, Val: sig}})
+		enc := ref.Seal(encKey, []byte("PS-Msg05"), sub, nil)
+		p.post("/pair-setup", ref.CTypeTLV, ref.TLVEncode([]ref.TLV{{Tag: ref.TagState, Val: []byte{5}}, {Tag: ref.TagEncrypted, Val: enc}}), r)
+		p.m3rightOK, p.setupClean, p.srp = false, false, nil
+	case "pairings-add-shortkey":
+		n := 1 + op.Arg%60
+		if n == 32 {
+			n = 33
+		}
+		body := ref.TLVEncode([]ref.TLV{{Tag: ref.TagState, Val: []byte{1}}, {Tag: ref.TagMethod, Val: []byte{3}}, {Tag: ref.TagIdentifier, Val: []byte("shortkey-ctl")}, {Tag: ref.TagPublicKey, Val: bytes.Repeat([]byte{7}, n)}, {Tag: ref.TagPermission, Val: []byte{0}}})
+		p.post("/pairings", ref.CTypeTLV, body, r)
+	case "pv-m3-shortkey-name":
+		// a correctly sealed finish request naming the controller that was stored with a malformed key
+		sig := make([]byte, 64)
+		w.Rand.Read(sig)
+		sub := ref.TLVEncode([]ref.TLV{{Tag: ref.TagIdentifier, Val: []byte("shortkey-ctl")}, {Tag: ref.TagSignature, Val: sig}})
+		items := []ref.TLV{{Tag: ref.TagState, Val: []byte{3}}, {Tag: ref.TagEncrypted, Val: ref.Seal(p.cl.VerifyKey(), []byte("PV-Msg03"), sub, nil)}}
+		p.post("/pair-verify", ref.CTypeTLV, ref.TLVEncode(items), r)
+		p.pvStarted = false
 	case "ps-m5-weak":
 		// key exchange under the key that follows from the degenerate verify request
 		id, kp := aw.peerID, aw.peerKP
